@@ -11,11 +11,28 @@ def with_quit(c):
     head, _, keys = c.rpartition(" keys=")
     return head + " keys=" + ("" if keys == "-" else keys) + QUIT
 
+_msan = {}
+def msan_probes():
+    """the two harnesses once more under MemorySanitizer (uninitialised reads), for the thorough tier"""
+    if "vi" not in _msan:
+        _msan["wd"] = Workdir(); wd = _msan["wd"].__enter__()
+        _msan["vi"] = build_harness(wd, "drive_vi_msan", vilib.VI_SRCS, extra=vilib.VI_FLAGS, cflags=MSAN_CFLAGS)
+        _msan["ex"] = build_harness(wd, "probe_ex_msan", exlib.EX_SRCS, extra=exlib.EX_FLAGS, cflags=MSAN_CFLAGS)
+    return _msan["vi"], _msan["ex"]
+
 def streams(viprobe, exprobe, tier, seed, wide):
     rng = Rng(seed)
     big = tier != "quick" or wide
     junk = [with_quit(c) for c in gen_vi.junk_cases(rng, 9000 if big else 700)]
-    return [vilib.vi_stream(viprobe, "vi-junk", "vi05", junk,
+    extra = []
+    if big:
+        mvi, mex = msan_probes()
+        mrng = Rng(seed + 5)
+        extra = [vilib.vi_stream(mvi, "vi-junk-msan", "vi05", [with_quit(c) for c in gen_vi.junk_cases(mrng, 3000) + gen_vi.edit_cases(mrng, 1500) + gen_vi.op_cases(mrng, 1500)],
+                    "the vi junk, editing and operator streams under MemorySanitizer (reads of uninitialised memory), model correspondence as above"),
+                 exlib.ex_stream(mex, "ex-junk-msan", "ex", gen_ex.junk_ex_cases(mrng, 3000) + gen_ex.c06_cases(mrng, 1000) + gen_ex.buf_cases(mrng, 1000, 4, 12),
+                    "the ex junk, line-command and buffer streams under MemorySanitizer")]
+    return extra + [vilib.vi_stream(viprobe, "vi-junk", "vi05", junk,
             "nonsensical, truncated and mutated vi key streams (typed text valid UTF-8: ASCII incl. control characters, whole multi-byte characters), files over ASCII / multi-byte / wide / combining / right-to-left text, missing and empty files, windows from 2x2 to 24x80, each ending in ESC ESC : ^E q! RET; under ASan/UBSan with a 20 s limit per case: no sanitizer report, no crash, the quit is reached with every key consumed; the model runs on the same keys"),
             exlib.ex_stream(exprobe, "ex-junk", "ex", gen_ex.junk_ex_cases(rng, 9000 if big else 700),
             "nonsensical, truncated and over-long ex command lines (addresses in and out of range, every command and option name, lines of 500..2000 bytes around the 512-byte limit, text blocks, empty and missing files) ending in q!; under ASan/UBSan; the model runs on the same scripts")]
